@@ -2,6 +2,7 @@
 graph (by an independent walk over `_tx_attrs`) and the answers of the navigation API
 (obj.parent, get_model, get_parent_of_type, get_children, get_children_of_type)."""
 import json
+import signal
 import sys
 
 sys.setrecursionlimit(3000)
@@ -121,7 +122,28 @@ def parent_chain_ends(o, bound):
     return False
 
 
+class CaseTimeout(BaseException):
+    pass
+
+
+def on_alarm(signum, frame):
+    raise CaseTimeout()
+
+
 def run_case(case):
+    """One case under an alarm: a loop that never ends (e.g. get_model over a cyclic `parent`
+    reference chain inside textX itself) is reported as an outcome instead of hanging the run."""
+    signal.signal(signal.SIGALRM, on_alarm)
+    signal.alarm(int(case.get("time_limit", 90)))
+    try:
+        return run_case_inner(case)
+    except CaseTimeout:
+        return {"load_error": "Timeout: the call did not return"}
+    finally:
+        signal.alarm(0)
+
+
+def run_case_inner(case):
     classes = [make_user_class(n, s) for n, s in case.get("user", {}).items()]
     try:
         mm = metamodel_from_str(case["grammar"], classes=classes)
